@@ -1,9 +1,10 @@
 // godriver: generates the cases of one property, runs the real package (built from /repo's working
 // tree) on them, evaluates the direct oracles, and writes
-//   cases.txt   one protocol line per distinct API call (input of modelrun)
-//   impl.txt    the implementation's canonical answer, same order
-//   oracle.jsonl  direct-oracle failures (property-level, no model involved)
-//   stats.json  measured input distribution, counts, samples
+//
+//	cases.txt   one protocol line per distinct API call (input of modelrun)
+//	impl.txt    the implementation's canonical answer, same order
+//	oracle.jsonl  direct-oracle failures (property-level, no model involved)
+//	stats.json  measured input distribution, counts, samples
 package main
 
 import (
@@ -78,6 +79,39 @@ func unhxl(s string) []string {
 // tolerant of rewording: any message citing "offset N"; a quoted lexeme makes it an unknown-id error
 var reOffset = regexp.MustCompile(`(?i)offset[ :=]*(\d+)`)
 var reQuoted = regexp.MustCompile("['\"`]([^'\"`]*)['\"`]")
+
+var reUnquoted = regexp.MustCompile(`(?i)unknown(?:\s+\w+)?\s+(\S+)\s+at\s+offset`)
+
+// classifyErr: "other" (no offset cited), "eid N" (an offset, no lexeme: a missing id), "unk N <hex lexeme>".
+// Tolerant of rewording: the lexeme is whichever quoted (or, failing that, unquoted) word of the message stands at the
+// cited offset of one of the texts the caller passed in; only if none does is the first candidate reported.
+func classifyErr(msg string, texts []string) string {
+	m := reOffset.FindStringSubmatch(msg)
+	if m == nil {
+		return "other"
+	}
+	o, _ := strconv.Atoi(m[1])
+	var cands []string
+	for _, q := range reQuoted.FindAllStringSubmatch(msg, -1) {
+		if q[1] != "" {
+			cands = append(cands, q[1])
+		}
+	}
+	if u := reUnquoted.FindStringSubmatch(msg); u != nil {
+		cands = append(cands, strings.Trim(u[1], "'\"`:,"))
+	}
+	if len(cands) == 0 || strings.Contains(strings.ToLower(msg), "expected id") {
+		return "eid " + m[1]
+	}
+	for _, w := range cands {
+		for _, t := range texts {
+			if o >= 0 && o+len(w) <= len(t) && t[o:o+len(w)] == w {
+				return "unk " + m[1] + " " + hx(w)
+			}
+		}
+	}
+	return "unk " + m[1] + " " + hx(cands[0])
+}
 
 // evalLine runs the implementation on one protocol line and returns the canonical answer.
 // Every call is wrapped in recover(): a panic is an answer ("PANIC"), never a crash of the driver.
@@ -168,22 +202,11 @@ func evalLine(line string) (out string) {
 		if err == nil {
 			return f[0] + " ok"
 		}
-		if f[0] == "Q" {
-			if m := reOffset.FindStringSubmatch(err.Error()); m != nil {
-				if q := reQuoted.FindStringSubmatch(err.Error()); q != nil {
-					return "Q unk " + m[1] + " " + hx(q[1])
-				}
-				return "Q eid " + m[1]
-			}
-			return "Q other"
+		texts := []string{unhx(f[1])}
+		if f[0] == "Q" && f[2] != "-" {
+			texts = append(texts, unhxl(f[2])...)
 		}
-		if m := reOffset.FindStringSubmatch(err.Error()); m != nil {
-			if q := reQuoted.FindStringSubmatch(err.Error()); q != nil {
-				return "R unk " + m[1] + " " + hx(q[1])
-			}
-			return "R eid " + m[1]
-		}
-		return "R other"
+		return f[0] + " " + classifyErr(err.Error(), texts)
 	}
 	return "? " + line
 }
@@ -200,19 +223,19 @@ type Fail struct {
 }
 
 type Ctx struct {
-	prop    string
-	tier    string
-	seed    uint64
-	rng     *SM64
-	memo    map[string]string
-	order   []string // distinct protocol lines in first-request order
-	pending []string
-	pendset map[string]bool
-	final   bool
-	fails   []Fail
-	failset map[string]bool
-	stats   map[string]int
-	samples []string
+	prop     string
+	tier     string
+	seed     uint64
+	rng      *SM64
+	memo     map[string]string
+	order    []string // distinct protocol lines in first-request order
+	pending  []string
+	pendset  map[string]bool
+	final    bool
+	fails    []Fail
+	failset  map[string]bool
+	stats    map[string]int
+	samples  []string
 	requests int
 }
 
